@@ -444,6 +444,9 @@ fn blocked_pipeline_cases(h: &mut Harness, res: &mut Vec<Value>) -> Result<(), S
         ("BLPOP k 0 served by a push", vec!["BLPOP", "k", "0"], true),
         ("BLPOP k 1 timing out", vec!["BLPOP", "k", "1"], false),
         ("BRPOP nokey k 0 served by a push", vec!["BRPOP", "nokey", "k", "0"], true),
+        // the same behind another client that blocked on k earlier and waits for ever (a seeded timeout scan stopped at the
+        // first waiter of a key that had not timed out: the one behind it never got its nil, nor anything after it)
+        ("BLPOP k 1 timing out behind a client that waits for ever", vec!["BLPOP", "k", "1"], false),
     ];
     let tails: Vec<(&str, Vec<u8>, Vec<Want>, bool)> = vec![
         ("ECHO t", resp::cmd(&["ECHO", "t"]), vec![Want::Is(R::Bulk(b"t".to_vec()))], false),
@@ -466,6 +469,13 @@ fn blocked_pipeline_cases(h: &mut Harness, res: &mut Vec<Value>) -> Result<(), S
                 let name = format!("blocked pipeline: ECHO m1, {}, {}{}", bname, tname, match mode { 0 => "", 1 => " (tail in a second write)", _ => " (ECHO held in the same write, tail in a second write)" });
                 h.ensure()?;
                 h.aux_call(&["FLUSHALL"])?;
+                let mut shield: Option<crate::srv::Client> = None;
+                if bname.contains("behind a client") {
+                    let mut sc = h.srv.as_ref().unwrap().connect().map_err(|e| format!("connect: {:?}", e))?;
+                    sc.send(&resp::cmd(&["BLPOP", "k", "0"]));
+                    let _ = h.srv.as_ref().unwrap().steps(3);
+                    shield = Some(sc);
+                }
                 let mut cli = h.srv.as_ref().unwrap().connect().map_err(|e| format!("connect: {:?}", e))?;
                 let mut first = resp::cmd(&["ECHO", "m1"]);
                 first.extend(resp::cmd(bcmd));
@@ -541,6 +551,9 @@ fn blocked_pipeline_cases(h: &mut Harness, res: &mut Vec<Value>) -> Result<(), S
                 }
                 let shown: Vec<String> = got.iter().map(resp::show).collect();
                 cli.discard();
+                if let Some(mut sc) = shield.take() {
+                    sc.discard();
+                }
                 if let Some(s) = h.srv.as_ref() {
                     if !s.is_dead() {
                         let _ = s.steps(2);
